@@ -1387,3 +1387,424 @@ pub fn c17_all(ctx: &mut Ctx) {
     c17::<MlLigero>(ctx, n);
     c17::<Brakedown>(ctx, n);
 }
+
+// ------------------------------------------------------------------------------------------------
+// C19 extras: batch proofs have one element per distinct point label; sizes do not depend on the
+// number of polynomials opened at a point (pairing schemes)
+// ------------------------------------------------------------------------------------------------
+pub fn c19_batch<S: Scheme>(ctx: &mut Ctx, n: usize, per_point_constant: bool)
+where
+    Pt<S>: Clone + Ord + std::fmt::Debug,
+    SProof<S>: Clone,
+{
+    for i in 0..n {
+        let id = format!("C19/{}-batch/{}", S::NAME, i);
+        if !ctx.selected(&id) { continue; }
+        let mut rng = rng_for(ctx.seed, &format!("C19/{}-batch", S::NAME), i as u64);
+        let npoly = range(&mut rng, 1, 4);
+        let inst = match guarded(|| instance::<S>(&mut rng, false, npoly)) { Ok(Ok(x)) => x, _ => continue };
+        let nl = range(&mut rng, 1, 3);
+        let (qs, _ev) = query_set::<S>(&mut rng, &inst, nl, true);
+        let mut sp = fresh_sponge();
+        if let Ok(bp) = batch_open::<S>(&inst, &qs, &mut sp, &mut rng) {
+            let proofs: Vec<SProof<S>> = bp.clone().into();
+            let groups = group(&qs).len();
+            if proofs.len() != groups {
+                ctx.rep.expect_fail(&id, &format!("{}/size-law", S::NAME), &format!("batch proof has {} elements for {} point labels", proofs.len(), groups),
+                    fail_replay(&inst, &id, ctx.seed, "batch proof length"));
+            }
+            if per_point_constant {
+                let total = ser(&bp).len();
+                // every per-point proof has the same size class whatever the number of polynomials
+                let per = (total - 8) as f64 / groups.max(1) as f64;
+                if per > 48.0 + 1.0 + 32.0 + 0.5 && S::NAME != "pst13" {
+                    ctx.rep.expect_fail(&id, &format!("{}/size-law", S::NAME), &format!("per-point proof of {} bytes grows with the number of polynomials", per),
+                        fail_replay(&inst, &id, ctx.seed, "per-point proof size"));
+                }
+            }
+            ctx.rep.case(&format!("{} batch polys={} labels={} proofs={}", S::NAME, npoly, groups, proofs.len()), Some(format!("{}-batch/{}/{}", S::NAME, npoly, groups)));
+        }
+    }
+}
+
+pub fn c19_extra(ctx: &mut Ctx) {
+    let n = ctx.n(8, 80);
+    c19_batch::<Marlin>(ctx, n, true);
+    c19_batch::<Sonic>(ctx, n, true);
+    c19_batch::<Pst13>(ctx, n, true);
+    c19_batch::<Ipa>(ctx, n, false);
+    c19_batch::<Hyrax>(ctx, n.min(10), false);
+    c19_batch::<UniLigero>(ctx, n.min(10), false);
+}
+
+// ------------------------------------------------------------------------------------------------
+// C11: histories of operations on one sponge; prover and verifier stay in lock-step
+// ------------------------------------------------------------------------------------------------
+pub enum HistOp<S: Scheme> {
+    Open { idx: Vec<usize>, point: Pt<S> },
+    Batch { qs: QuerySet<Pt<S>>, ev: Evaluations<Pt<S>, Fr> },
+    Lc { lcs: Vec<LinearCombination<Fr>>, qs: QuerySet<Pt<S>>, ev: Evaluations<Pt<S>, Fr> },
+}
+pub enum HistProof<S: Scheme> {
+    Open(SProof<S>),
+    Batch(BProof<S>),
+    Lc(ark_poly_commit::BatchLCProof<Fr, BProof<S>>),
+}
+
+/// linear combinations over unbounded polynomials of the instance (degree-bounded ones only alone
+/// with coefficient one), queried at 1-2 point labels
+pub fn gen_lcs<S: Scheme>(rng: &mut Rng, inst: &Instance<S>, nlc: usize, nlabels: usize)
+    -> (Vec<LinearCombination<Fr>>, QuerySet<Pt<S>>, Evaluations<Pt<S>, Fr>)
+where
+    Pt<S>: Clone + Ord + std::fmt::Debug,
+{
+    use ark_poly_commit::LCTerm;
+    let unbounded: Vec<usize> = (0..inst.polys.len()).filter(|&i| inst.polys[i].degree_bound().is_none()).collect();
+    let bounded: Vec<usize> = (0..inst.polys.len()).filter(|&i| inst.polys[i].degree_bound().is_some()).collect();
+    let mut lcs = vec![];
+    for j in 0..nlc {
+        let mut lc = LinearCombination::empty(format!("lc{}", j));
+        if !bounded.is_empty() && (unbounded.is_empty() || range(rng, 0, 3) == 0) {
+            let i = bounded[range(rng, 0, bounded.len() - 1)];
+            lc.push((Fr::one(), LCTerm::PolyLabel(inst.polys[i].label().clone())));
+        } else {
+            let nterms = range(rng, 1, 5);
+            for _ in 0..nterms {
+                let coeff = match range(rng, 0, 4) { 0 => Fr::zero(), 1 => Fr::one(), 2 => -Fr::one(), _ => Fr::rand(rng) };
+                if range(rng, 0, 4) == 0 {
+                    lc.push((coeff, LCTerm::One));
+                } else {
+                    let i = unbounded[range(rng, 0, unbounded.len() - 1)];
+                    lc.push((coeff, LCTerm::PolyLabel(inst.polys[i].label().clone())));
+                }
+            }
+            if lc.iter().all(|(_, t)| t.is_one()) {
+                let i = unbounded[range(rng, 0, unbounded.len() - 1)];
+                lc.push((Fr::rand(rng), LCTerm::PolyLabel(inst.polys[i].label().clone())));
+            }
+        }
+        lcs.push(lc);
+    }
+    let mut qs = QuerySet::new();
+    let mut ev = Evaluations::new();
+    let mut pts: Vec<Pt<S>> = vec![];
+    for l in 0..nlabels {
+        let pt = if l > 0 && coin(rng) { pts[0].clone() } else { S::rand_point(rng, &inst.sizes) };
+        pts.push(pt.clone());
+        let mut any = false;
+        for (k, lc) in lcs.iter().enumerate() {
+            if coin(rng) || (!any && k + 1 == lcs.len()) {
+                any = true;
+                qs.insert((lc.label().clone(), (format!("pt{}", l), pt.clone())));
+                ev.insert((lc.label().clone(), pt.clone()), lc_value::<S>(inst, lc, &pt));
+            }
+        }
+    }
+    (lcs, qs, ev)
+}
+
+pub fn lc_value<S: Scheme>(inst: &Instance<S>, lc: &LinearCombination<Fr>, pt: &Pt<S>) -> Fr {
+    use ark_poly_commit::LCTerm;
+    let mut v = Fr::zero();
+    for (c, t) in lc.iter() {
+        match t {
+            LCTerm::One => v += *c,
+            LCTerm::PolyLabel(l) => {
+                let p = inst.polys.iter().find(|p| p.label() == l).unwrap();
+                v += *c * p.evaluate(pt);
+            }
+        }
+    }
+    v
+}
+
+pub fn hist_prove<S: Scheme>(inst: &Instance<S>, op: &HistOp<S>, sp: &mut LogSponge, rng: &mut Rng) -> Result<HistProof<S>, String>
+where
+    Pt<S>: Clone + Ord + std::fmt::Debug,
+{
+    match op {
+        HistOp::Open { idx, point } => {
+            let ps: Vec<_> = idx.iter().map(|&i| &inst.polys[i]).collect();
+            let cs: Vec<_> = idx.iter().map(|&i| &inst.comms[i]).collect();
+            let ss: Vec<_> = idx.iter().map(|&i| &inst.states[i]).collect();
+            match guarded(|| S::PC::open(&inst.ck, ps, cs, point, sp, ss, Some(rng))) {
+                Ok(Ok(p)) => Ok(HistProof::Open(p)),
+                Ok(Err(e)) => Err(err_kind(&e)),
+                Err(a) => Err(a),
+            }
+        }
+        HistOp::Batch { qs, .. } => batch_open::<S>(inst, qs, sp, rng).map(HistProof::Batch),
+        HistOp::Lc { lcs, qs, .. } => match guarded(|| S::PC::open_combinations(&inst.ck, lcs, &inst.polys, &inst.comms, qs, sp, &inst.states, Some(rng))) {
+            Ok(Ok(p)) => Ok(HistProof::Lc(p)),
+            Ok(Err(e)) => Err(err_kind(&e)),
+            Err(a) => Err(a),
+        },
+    }
+}
+
+pub fn hist_verify<S: Scheme>(inst: &Instance<S>, op: &HistOp<S>, proof: &HistProof<S>, vs: &mut LogSponge, rng: &mut Rng) -> Outcome
+where
+    Pt<S>: Clone + Ord + std::fmt::Debug,
+{
+    match (op, proof) {
+        (HistOp::Open { idx, point }, HistProof::Open(p)) => {
+            let cs: Vec<_> = idx.iter().map(|&i| &inst.comms[i]).collect();
+            let vals: Vec<Fr> = idx.iter().map(|&i| inst.polys[i].evaluate(point)).collect();
+            Outcome::from(guarded(|| S::PC::check(&inst.vk, cs, point, vals, p, vs, Some(rng))))
+        }
+        (HistOp::Batch { qs, ev }, HistProof::Batch(p)) => batch_check::<S>(inst, &inst.comms, qs, ev, p, vs, rng),
+        (HistOp::Lc { lcs, qs, ev }, HistProof::Lc(p)) => Outcome::from(guarded(|| S::PC::check_combinations(&inst.vk, lcs, &inst.comms, qs, ev, p, vs, rng))),
+        _ => Outcome::Refuse("proof of another kind".into()),
+    }
+}
+
+pub fn c11<S: Scheme>(ctx: &mut Ctx, n: usize)
+where
+    Pt<S>: Clone + Ord + std::fmt::Debug,
+{
+    for i in 0..n {
+        let id = format!("C11/{}/{}", S::NAME, i);
+        if !ctx.selected(&id) { continue; }
+        let mut rng = rng_for(ctx.seed, &format!("C11/{}", S::NAME), i as u64);
+        let npoly = range(&mut rng, 2, 4);
+        let inst = match guarded(|| instance::<S>(&mut rng, ctx.thorough, npoly)) { Ok(Ok(x)) => x, _ => continue };
+        let nonconst: Vec<usize> = (0..npoly).filter(|&k| !S::is_constant(inst.polys[k].polynomial())).collect();
+        if nonconst.is_empty() { continue; }
+        let nops = range(&mut rng, 2, if ctx.thorough { 6 } else { 4 });
+        let mut ops: Vec<HistOp<S>> = vec![];
+        for _ in 0..nops {
+            match range(&mut rng, 0, 2) {
+                0 => {
+                    let mut idx: Vec<usize> = (0..npoly).filter(|_| coin(&mut rng)).collect();
+                    if !idx.iter().any(|k| nonconst.contains(k)) { idx.push(nonconst[0]); }
+                    idx.sort(); idx.dedup();
+                    ops.push(HistOp::Open { idx, point: S::rand_point(&mut rng, &inst.sizes) });
+                }
+                1 => { let nl = range(&mut rng, 1, 2); let (qs, ev) = query_set::<S>(&mut rng, &inst, nl, true); ops.push(HistOp::Batch { qs, ev }); }
+                _ => { let nl = range(&mut rng, 1, 2); let (lcs, qs, ev) = gen_lcs::<S>(&mut rng, &inst, nl, 1); ops.push(HistOp::Lc { lcs, qs, ev }); }
+            }
+        }
+        let mut sp = fresh_sponge();
+        sp.absorb_seed(ctx.seed ^ i as u64);
+        let mut vs = sp.clone();
+        let pre = sp.clone();
+        let mut proofs: Vec<HistProof<S>> = vec![];
+        let mut ok = true;
+        for (k, op) in ops.iter().enumerate() {
+            let kind = match op { HistOp::Open { .. } => "open", HistOp::Batch { .. } => "batch", HistOp::Lc { .. } => "lc" };
+            let pr = match hist_prove::<S>(&inst, op, &mut sp, &mut rng) {
+                Ok(p) => p,
+                Err(e) => {
+                    ctx.rep.expect_fail(&id, &format!("{}/history-open-refused/{}", S::NAME, kind), &format!("op {} ({}) refused: {}", k, kind, e), fail_replay(&inst, &id, ctx.seed, &format!("history op {} {}", k, kind)));
+                    ok = false; break;
+                }
+            };
+            let out = hist_verify::<S>(&inst, op, &pr, &mut vs, &mut rng);
+            if !out.accepted() {
+                ctx.rep.expect_fail(&id, &format!("{}/history-rejected/{}", S::NAME, kind), &format!("honest proof of op {} ({}) in a history not accepted: {:?}", k, kind, out), fail_replay(&inst, &id, ctx.seed, &format!("history op {} {}", k, kind)));
+                ok = false; break;
+            }
+            if sp.log != vs.log || sp.probe() != vs.probe() {
+                ctx.rep.expect_fail(&id, &format!("{}/sponge-diverged/{}", S::NAME, kind), &format!("prover and verifier transcripts differ after op {} ({}): prover [{}] verifier [{}]", k, kind, sp.shape(), vs.shape()), fail_replay(&inst, &id, ctx.seed, &format!("history op {} {}", k, kind)));
+                ok = false; break;
+            }
+            ctx.rep.count(&format!("{}/op-{}", S::NAME, kind));
+            proofs.push(pr);
+        }
+        ctx.rep.case(&format!("{} history ops={} events=[{}]", inst.desc(), nops, sp.shape().chars().take(120).collect::<String>()), Some(format!("{}/hist/{}/{}", S::NAME, nops, sp.log.len())));
+        if !ok { continue; }
+        // the negative statements of C11 are about non-constant polynomials: for a constant
+        // polynomial the displaced statement is still a true, transcript-independent claim
+        if nonconst.len() != npoly { continue; }
+        // combination openings may combine to a constant polynomial (zero coefficients,
+        // cancelling terms): only plain and batched openings are used for the negative statements
+        let plain = |op: &HistOp<S>| !matches!(op, HistOp::Lc { .. });
+        // (a) perturbed pre-state: the first check must not accept
+        if plain(&ops[0]) {
+            let mut vs2 = pre.clone();
+            use ark_crypto_primitives::sponge::CryptographicSponge;
+            vs2.absorb(&vec![1u8, 2, 3]);
+            let out = hist_verify::<S>(&inst, &ops[0], &proofs[0], &mut vs2, &mut rng);
+            if out.accepted() {
+                ctx.rep.expect_fail(&id, &format!("{}/accepted-on-other-transcript/pre-state", S::NAME), "proof accepted against a sponge with different prior absorbs", fail_replay(&inst, &id, ctx.seed, "perturbed pre-state"));
+            }
+            ctx.rep.count(&format!("{}/perturbed-pre-state", S::NAME));
+            ctx.rep.case(&format!("{} perturbed pre-state out={:?}", S::NAME, out), Some(format!("{}/pre/{}", S::NAME, i)));
+        }
+        // (b) a proof moved to another position of the sequence: replay op 1's statement and proof first
+        if ops.len() >= 2 && plain(&ops[1]) {
+            let mut vs3 = pre.clone();
+            let out = hist_verify::<S>(&inst, &ops[1], &proofs[1], &mut vs3, &mut rng);
+            // the statement of op 1 is true; only the transcript position is wrong
+            if out.accepted() {
+                ctx.rep.expect_fail(&id, &format!("{}/accepted-on-other-transcript/displaced", S::NAME), "proof accepted at another position of the history", fail_replay(&inst, &id, ctx.seed, "proof of op 1 verified first"));
+            }
+            ctx.rep.count(&format!("{}/displaced", S::NAME));
+            ctx.rep.case(&format!("{} displaced proof out={:?}", S::NAME, out), Some(format!("{}/disp/{}", S::NAME, i)));
+        }
+    }
+}
+
+pub fn c11_all(ctx: &mut Ctx) {
+    let n = ctx.n(8, 100);
+    c11::<Marlin>(ctx, n);
+    c11::<Sonic>(ctx, n);
+    c11::<Ipa>(ctx, n);
+    c11::<Pst13>(ctx, n);
+    c11::<Hyrax>(ctx, n);
+    c11::<UniLigero>(ctx, n);
+    c11::<MlLigero>(ctx, n.min(30));
+    c11::<Brakedown>(ctx, n.min(30));
+}
+
+// ------------------------------------------------------------------------------------------------
+// C06: linear-combination openings
+// ------------------------------------------------------------------------------------------------
+pub fn c06<S: Scheme>(ctx: &mut Ctx, n: usize)
+where
+    Pt<S>: Clone + Ord + std::fmt::Debug,
+    BProof<S>: Clone,
+{
+    use ark_poly_commit::{BatchLCProof, LCTerm};
+    for i in 0..n {
+        let id0 = format!("C06/{}/{}", S::NAME, i);
+        if !ctx.selected(&id0) { continue; }
+        let mut rng = rng_for(ctx.seed, &format!("C06/{}", S::NAME), i as u64);
+        let npoly = range(&mut rng, 2, 5);
+        let inst = match guarded(|| instance::<S>(&mut rng, ctx.thorough, npoly)) { Ok(Ok(x)) => x, _ => continue };
+        let has_unbounded = inst.polys.iter().any(|p| p.degree_bound().is_none());
+        if !has_unbounded && !S::BOUNDS { continue; }
+        let nlc = range(&mut rng, 1, 3);
+        let nlabels = range(&mut rng, 1, 3);
+        let (lcs, qs, ev) = gen_lcs::<S>(&mut rng, &inst, nlc, nlabels);
+        let open = |rng: &mut Rng, lcs: &Vec<LinearCombination<Fr>>, qs: &QuerySet<Pt<S>>| {
+            let mut sp = fresh_sponge();
+            guarded(|| S::PC::open_combinations(&inst.ck, lcs, &inst.polys, &inst.comms, qs, &mut sp, &inst.states, Some(rng)))
+        };
+        let check = |rng: &mut Rng, lcs: &Vec<LinearCombination<Fr>>, qs: &QuerySet<Pt<S>>, ev: &Evaluations<Pt<S>, Fr>, proof: &BatchLCProof<Fr, BProof<S>>| {
+            let mut vs = fresh_sponge();
+            Outcome::from(guarded(|| S::PC::check_combinations(&inst.vk, lcs, &inst.comms, qs, ev, proof, &mut vs, rng)))
+        };
+        let proof = match open(&mut rng, &lcs, &qs) {
+            Ok(Ok(p)) => p,
+            other => {
+                ctx.rep.expect_fail(&id0, &format!("{}/lc-honest-refused", S::NAME), &format!("open_combinations refused an in-domain request: {:?}", other.map(|r| r.map(|_| ()).map_err(|e| err_kind(&e)))),
+                    fail_replay(&inst, &id0, ctx.seed, &format!("lcs {:?}", lcs.iter().map(|l| l.label().clone()).collect::<Vec<_>>())));
+                ctx.rep.case(&format!("{} lc open refused", inst.desc()), None);
+                continue;
+            }
+        };
+        let desc = format!("{} lcs=[{}] queries={}", inst.desc(),
+            lcs.iter().map(|l| format!("{}:{}t", l.label(), l.len())).collect::<Vec<_>>().join(","), qs.len());
+        let out = check(&mut rng, &lcs, &qs, &ev, &proof);
+        if !out.accepted() {
+            ctx.rep.expect_fail(&id0, &format!("{}/lc-honest-rejected", S::NAME), &format!("honest combination proof not accepted: {:?}", out), fail_replay(&inst, &id0, ctx.seed, &desc));
+        }
+        let shared_points = { let pts: std::collections::BTreeSet<_> = qs.iter().map(|q| (q.1).1.clone()).collect(); let labels: std::collections::BTreeSet<_> = qs.iter().map(|q| (q.1).0.clone()).collect(); pts.len() < labels.len() };
+        ctx.rep.count(&format!("{}/lc-shared-point-{}", S::NAME, shared_points));
+        ctx.rep.case(&desc, Some(format!("{}/lc/{}/{}/{}", S::NAME, nlc, nlabels, shared_points)));
+        if !out.accepted() { continue; }
+        // (1) claimed value changed
+        {
+            let id = format!("{}/value", id0);
+            let keys: Vec<_> = ev.keys().cloned().collect();
+            let k = range(&mut rng, 0, keys.len() - 1);
+            let mut ev2 = ev.clone();
+            *ev2.get_mut(&keys[k]).unwrap() += rand_nonzero(&mut rng);
+            let o = check(&mut rng, &lcs, &qs, &ev2, &proof);
+            if o.accepted() { ctx.rep.expect_fail(&id, &format!("{}/lc-false-accepted/value", S::NAME), "changed combination value accepted", fail_replay(&inst, &id, ctx.seed, &desc)); }
+            ctx.rep.count(&format!("{}/lc-value", S::NAME));
+            ctx.rep.case(&format!("{} lc value out={:?}", S::NAME, o), Some(format!("{}/lcv/{}", S::NAME, i)));
+        }
+        // (2) verifier-side coefficient / (3) constant term changed
+        for which in ["coefficient", "constant"] {
+            let id = format!("{}/{}", id0, which);
+            // pick a queried LC and a term of the right kind whose change moves the value
+            let mut done = false;
+            for (li, lc) in lcs.iter().enumerate() {
+                if done { break; }
+                let queried: Vec<_> = qs.iter().filter(|q| &q.0 == lc.label()).collect();
+                if queried.is_empty() { continue; }
+                let mut terms: Vec<(Fr, LCTerm)> = lc.iter().cloned().collect();
+                let pos = terms.iter().position(|(_, t)| if which == "constant" { t.is_one() } else { !t.is_one() });
+                let pos = match pos { Some(p) => p, None => continue };
+                if which == "coefficient" {
+                    // degree-bounded single-term combinations must keep coefficient one (assert in the code)
+                    if let LCTerm::PolyLabel(l) = &terms[pos].1 {
+                        let p = inst.polys.iter().find(|p| p.label() == l).unwrap();
+                        if p.degree_bound().is_some() { continue; }
+                        if queried.iter().all(|q| p.evaluate(&(q.1).1).is_zero()) { continue; }
+                    }
+                }
+                terms[pos].0 += rand_nonzero(&mut rng);
+                let mut lcs2 = lcs.clone();
+                lcs2[li] = LinearCombination::new(lc.label().clone(), terms);
+                let o = check(&mut rng, &lcs2, &qs, &ev, &proof);
+                if o.accepted() { ctx.rep.expect_fail(&id, &format!("{}/lc-false-accepted/{}", S::NAME, which), &format!("changed {} accepted", which), fail_replay(&inst, &id, ctx.seed, &desc)); }
+                ctx.rep.count(&format!("{}/lc-{}", S::NAME, which));
+                ctx.rep.case(&format!("{} lc {} out={:?}", S::NAME, which, o), Some(format!("{}/lc{}/{}", S::NAME, which, i)));
+                done = true;
+            }
+        }
+        // (4) transmitted evaluations changed (default implementation only)
+        if let Some(evals) = &proof.evals {
+            if !evals.is_empty() {
+                let id = format!("{}/evals", id0);
+                let mut e2 = evals.clone();
+                let k = range(&mut rng, 0, e2.len() - 1);
+                e2[k] += rand_nonzero(&mut rng);
+                let p2 = BatchLCProof { proof: proof.proof.clone(), evals: Some(e2) };
+                let o = check(&mut rng, &lcs, &qs, &ev, &p2);
+                if o.accepted() { ctx.rep.expect_fail(&id, &format!("{}/lc-false-accepted/evals", S::NAME), "changed transmitted evaluation accepted", fail_replay(&inst, &id, ctx.seed, &desc)); }
+                // dropped / surplus evaluations
+                let mut e3 = evals.clone(); e3.pop();
+                let p3 = BatchLCProof { proof: proof.proof.clone(), evals: Some(e3) };
+                let mut ev2 = ev.clone();
+                let k0 = ev2.keys().next().cloned().unwrap();
+                *ev2.get_mut(&k0).unwrap() += rand_nonzero(&mut rng);
+                let o3 = check(&mut rng, &lcs, &qs, &ev2, &p3);
+                if o3.accepted() { ctx.rep.expect_fail(&id, &format!("{}/lc-false-accepted/evals-shape", S::NAME), "false combination value accepted with a truncated evaluation list", fail_replay(&inst, &id, ctx.seed, &desc)); }
+                ctx.rep.count(&format!("{}/lc-evals", S::NAME));
+                ctx.rep.case(&format!("{} lc evals out={:?}/{:?}", S::NAME, o, o3), Some(format!("{}/lce/{}", S::NAME, i)));
+            }
+        }
+        // (5) degree-bound policy: a bounded polynomial mixed with other terms must be refused
+        if S::BOUNDS {
+            if let Some(bp) = inst.polys.iter().find(|p| p.degree_bound().is_some()) {
+                let id = format!("{}/bound-policy", id0);
+                let other = inst.polys.iter().find(|p| p.label() != bp.label());
+                let mut variants: Vec<(&str, Vec<(Fr, LCTerm)>)> = vec![];
+                if let Some(o) = other {
+                    variants.push(("mixed", vec![(Fr::one(), LCTerm::PolyLabel(bp.label().clone())), (Fr::rand(&mut rng), LCTerm::PolyLabel(o.label().clone()))]));
+                }
+                variants.push(("with-constant", vec![(Fr::one(), LCTerm::PolyLabel(bp.label().clone())), (Fr::rand(&mut rng), LCTerm::One)]));
+                variants.push(("scaled", vec![(Fr::from(2u64), LCTerm::PolyLabel(bp.label().clone()))]));
+                for (vname, terms) in variants {
+                    let lc = LinearCombination::new("bad".to_string(), terms);
+                    let pt = S::rand_point(&mut rng, &inst.sizes);
+                    let mut q = QuerySet::new();
+                    q.insert(("bad".to_string(), ("pt".to_string(), pt.clone())));
+                    let r = open(&mut rng, &vec![lc.clone()], &q);
+                    let answered = matches!(r, Ok(Ok(_)));
+                    if answered {
+                        ctx.rep.expect_fail(&id, &format!("{}/lc-bound-dropped/{}", S::NAME, vname), "combination that drops an enforced degree bound was opened", fail_replay(&inst, &id, ctx.seed, vname));
+                    }
+                    ctx.rep.count(&format!("{}/lc-policy-{}", S::NAME, vname));
+                    ctx.rep.case(&format!("{} lc policy {} answered={}", S::NAME, vname, answered), Some(format!("{}/lcp/{}/{}", S::NAME, vname, i)));
+                }
+            }
+        }
+    }
+}
+
+pub fn c06_all(ctx: &mut Ctx) {
+    let n = ctx.n(10, 120);
+    c06::<Marlin>(ctx, n);
+    c06::<Sonic>(ctx, n);
+    c06::<Ipa>(ctx, n);
+    c06::<Pst13>(ctx, n);
+    c06::<Hyrax>(ctx, n.min(40));
+    c06::<UniLigero>(ctx, n.min(40));
+    c06::<MlLigero>(ctx, n.min(20));
+    c06::<Brakedown>(ctx, n.min(20));
+}
